@@ -40,6 +40,26 @@ theorem curv_fac_divisible :
 
 example : (1 : Nat) ≤ 7 ∧ 7 ≤ Tables.genVMax := by decide
 
+/-- **the curvature windows of `Geometries` and of `new`**, over the constants extracted from the
+    source on every run: the spherical / all upper end is `4 * CURV_FAC` — `CURV_FAC ×` the
+    largest curvature 4 = 2χ(S²) a spherical 2D symbol can have, attained exactly by the symbols
+    with trivial symmetry group (so any smaller value loses those) —, the spherical lower end is
+    1 (the least positive value of an exact multiple), the euclidean window is [0, 0], the
+    hyperbolic upper end is −1, hyperbolic / all have no lower end of their own (`i64::MIN`), the
+    cut-off `new` substitutes for a non-negative base curvature is `-CURV_FAC` (sound because of
+    `min_hyperbolic_window` below: a minimally hyperbolic vector never has bookkeeping value
+    below `-CURV_FAC`; any larger cut-off loses symbols), and the base curvature is
+    `-CURV_FAC / 2` per chamber. -/
+theorem geometry_windows :
+    Tables.geomMaxCurvature = [some (4 * Tables.curvFac), some 0, some (-1), some (4 * Tables.curvFac)] ∧
+    Tables.geomMinCurvature = [some 1, some 0, none, none] ∧
+    Tables.minHypCutoff = -Tables.curvFac ∧ Tables.chamberDivisor = 2 ∧
+    Geom.spherical.maxCurvature = 4 * curvFac ∧ Geom.all.maxCurvature = 4 * curvFac ∧
+    Geom.spherical.minCurvature = 1 ∧
+    Geom.euclidean.minCurvature = 0 ∧ Geom.euclidean.maxCurvature = 0 ∧
+    Geom.hyperbolic.maxCurvature = -1 ∧
+    Geom.hyperbolic.minCurvature = i64Min ∧ Geom.all.minCurvature = i64Min := by decide
+
 /-- **`vmin_degree_ge_3`**: for every orbit length r ≥ 1 the `compute_vmins` rule yields the
     least branching number v ≥ 1 with degree r·v ≥ 3; it coincides with the Spec's definition,
     and lies in 1..7. -/
@@ -269,10 +289,16 @@ example : ∃ c, mkCtx ex1 .all = .ok c ∧
     have hw := mkCtx_wf hm
     exact ⟨c, rfl, fun i hi => ⟨hw.vminPos i hi, Nat.le_refl _, hw.vminLe i hi⟩⟩
 
-/-- the lower end `-CURV_FAC` of the hyperbolic window "is implied by minimal hyperbolicity" -/
+/-- the cut-off `Tables.minHypCutoff` (`-CURV_FAC` in the source) that `new` puts under hyperbolic
+    searches "is implied by minimal hyperbolicity": every admissible minimally hyperbolic vector
+    of a context with `base_curvature ≥ 0` has bookkeeping value ≥ the cut-off (lowering one
+    branching number v ≥ 2 by one raises the value by k·CURV_FAC/(v(v−1)) ≤ CURV_FAC), so the
+    cut-off prunes nothing the property asks for. -/
 theorem min_hyperbolic_window (c : Ctx) (hw : WF c) (vs : List Nat) (ha : Adm c vs) (hm : MinHyp c vs)
-    (hnb : ¬ c.baseCurv < 0) : -curvFac ≤ scaled c vs :=
-  minHyp_ge hw ha hm hnb
+    (hnb : ¬ c.baseCurv < 0) : Tables.minHypCutoff ≤ scaled c vs ∧ -curvFac ≤ scaled c vs := by
+  have h := minHyp_ge hw ha hm hnb
+  have e : Tables.minHypCutoff = -curvFac := geometry_windows.2.2.1
+  exact ⟨by rw [e]; exact h, h⟩
 
 /-- **`dsyms_output`**: for every D-set and geometry whose context has `base_curvature ≥ 0`, a
     vector is emitted by the model of `DSyms` iff it has one entry per orbit between the orbit's
@@ -411,6 +437,26 @@ theorem box_suffices (n : Nat) (orbs : List SpecC07.Orbit) (hok : SpecC07.orbits
         a ∈ SpecC07.boxOf (orbs.map fun o => SpecC07.vminOf o.r) SpecC07.boxTop) :=
   SpecC07.box_suffices_lists n orbs hok hp a hlen hadm
 
+/-- **the oracle's walk loses nothing**: the Spec does not materialise the box but walks it orbit
+    by orbit, not extending a prefix whose vector (later orbits at their minimum) already has
+    K < 0.  Every member of the box that has K ≥ 0 or is minimally hyperbolic is among the
+    candidates (K is antitone in every branching number). -/
+theorem candidates_complete (n : Nat) (orbs : List SpecC07.Orbit) (hok : SpecC07.orbitsOk orbs = true)
+    (vmins : List Nat) (top : Nat) (hvl : vmins.length = orbs.length)
+    (hv1 : ∀ i, i < vmins.length → 1 ≤ vmins.getD i 0)
+    (b : List Nat) (hb : b ∈ SpecC07.boxOf vmins top)
+    (hP : (SpecC07.curvature n orbs b).isNeg = false ∨ SpecC07.minimallyHyperbolic n orbs vmins b = true) :
+    b ∈ SpecC07.candidatesOf n orbs vmins top :=
+  SpecC07.candidates_complete_lists n hok vmins top hvl hv1 b hb hP
+
+/-- the premise of `box_suffices` evaluated on the candidates (what the Spec does) is the premise
+    on the whole box -/
+theorem premise_of_candidates (n : Nat) (orbs : List SpecC07.Orbit) (hok : SpecC07.orbitsOk orbs = true)
+    (vmins : List Nat) (top : Nat) (hvl : vmins.length = orbs.length)
+    (hv1 : ∀ i, i < vmins.length → 1 ≤ vmins.getD i 0)
+    (h : SpecC07.candPremise n orbs vmins top = true) : SpecC07.boxPremise n orbs vmins top = true :=
+  SpecC07.premise_of_candidates_lists n hok vmins top hvl hv1 h
+
 /-- the Spec's fraction arithmetic is exact: its `curvature` of an assignment with entries ≥ 1
     has the value Σ_orbits (|o|/r_o)/a_o − size/2 in ℚ -/
 theorem spec_curvature_exact (n : Nat) (orbs : List SpecC07.Orbit) (hok : SpecC07.orbitsOk orbs = true)
@@ -428,7 +474,9 @@ def exOrbs : List SpecC07.Orbit := [⟨0, [1], 1⟩, ⟨1, [1], 1⟩]
 example : SpecC07.orbitsOk exOrbs = true ∧
     SpecC07.boxPremise 1 exOrbs (exOrbs.map fun o => SpecC07.vminOf o.r) SpecC07.boxTop = true ∧
     (SpecC07.curvature 1 exOrbs [3, 6]).isZero = true ∧
-    SpecC07.minimallyHyperbolic 1 exOrbs (exOrbs.map fun o => SpecC07.vminOf o.r) [3, 7] = true := by
+    SpecC07.minimallyHyperbolic 1 exOrbs (exOrbs.map fun o => SpecC07.vminOf o.r) [3, 7] = true ∧
+    SpecC07.candPremise 1 exOrbs (exOrbs.map fun o => SpecC07.vminOf o.r) SpecC07.boxTop = true ∧
+    [3, 7] ∈ SpecC07.boxOf (exOrbs.map fun o => SpecC07.vminOf o.r) SpecC07.boxTop := by
   decide +kernel
 
 /-! ### open (not theorems): the statements, for the record -/
@@ -492,7 +540,7 @@ def curvQ_is_spec_curvature_statement : Prop :=
     Evaluated by the Spec for every explored D-set (`oracle-box-premise-holds`). -/
 def box_premise_statement : Prop :=
   ∀ (g : SpecC03.Sym), SpecC07.inDomain g = true →
-    SpecC07.boxPremise g.size (SpecC07.orbits g)
+    SpecC07.candPremise g.size (SpecC07.orbits g)
       ((SpecC07.orbits g).map fun o => SpecC07.vminOf o.r) SpecC07.boxTop = true
 
 end DSymVerif.C07
